@@ -11,7 +11,7 @@
    subscriber by the broadcaster's per-subscriber goroutines, and `latest` moving backwards
    when blocks are delivered out of order. *)
 From Coq Require Import Sorting.Sorted.
-From Verif Require Import Base.Util Model.SimChain Proofs.SimChainProofs.
+From Verif Require Import Base.Util Model.SimChain Proofs.SimChainProofs Gen.Generated.
 Open Scope N_scope.
 
 (* For every sequence of received blocks (any numbers, any order, repeats allowed) the history
@@ -104,6 +104,21 @@ Theorem C19_conf_checker_sound :
   forall ds obs, C19_conf_check ds obs = true -> C19_conf_spec ds obs.
 Proof. exact C19_conf_check_sound. Qed.
 Print Assumptions C19_conf_checker_sound.
+
+(* Obligations against the constants read from /repo's current sources: the model's history depth
+   and look-back are the code's, and the simulated chain keeps at least as many blocks as the
+   plug-in puts into an observation. *)
+Theorem C19_gen_history_depth : Z.of_nat history_depth = SimHistoryDepth.
+Proof. vm_compute. reflexivity. Qed.
+Print Assumptions C19_gen_history_depth.
+
+Theorem C19_gen_report_range : Z.of_nat report_range = SimReportTrackerBlockRange.
+Proof. vm_compute. reflexivity. Qed.
+Print Assumptions C19_gen_report_range.
+
+Theorem C19_gen_history_covers_observation : (ObservationBlockHistoryLimit <= SimHistoryDepth)%Z.
+Proof. vm_compute. discriminate. Qed.
+Print Assumptions C19_gen_history_covers_observation.
 
 (* Non-vacuity: a range crossing a power of ten, received out of order with a repeat, gives the
    descending history; three senders of one (report, round) around a Load record one event;
